@@ -126,6 +126,8 @@ class _Steps:
     limit = 1 << 62
     tripped = 0
     installed = False
+    max_permille = 0
+    max_at = None
 
 
 def _on_event(*_a):
@@ -153,9 +155,15 @@ def install_counter() -> None:
     _Steps.installed = True
 
 
+BUDGET_CONSTANT = 20_000
+BUDGET_PER_BYTE = 500
+
+
 def budget_for(blen: int) -> int:
-    """2e6 steps for a 4 KB message, proportionally more for larger ones (linear in the size)."""
-    return 2_000_000 * max(1, (blen + 4095) // 4096)
+    """Steps allowed for one decode: linear in the body size, 20000 + 500 per byte = 2.07e6 for a 4 KB message.
+    Measured on the unchanged tree: the costliest valid 4 KB message (1013 NLRIs) takes 2.1e5 steps, a 2-byte one
+    about 1e3, and no input of the whole quick-tier space uses more than 11 % of its budget."""
+    return BUDGET_CONSTANT + BUDGET_PER_BYTE * blen
 
 
 # ------------------------------------------------------------------------------------------------
@@ -395,6 +403,9 @@ def seam1(S: Session, mtype: int, body: bytes, measure: bool = False):
         steps = _Steps.n
         _Steps.limit = 1 << 62
     S.procs._write_queue.clear()
+    if out[0] != 'budget' and steps * 1000 // budget_for(len(body)) > _Steps.max_permille:
+        _Steps.max_permille = steps * 1000 // budget_for(len(body))
+        _Steps.max_at = (mtype, body[:64].hex(), len(body), steps)
     return out, steps
 
 
@@ -1300,7 +1311,7 @@ def _indexed_worker(arg):
 
             t0 = time.process_time()
             res = worker(job)
-            print(f'C03_TIMING cpu={time.process_time() - t0:7.2f}s job={str(job)[:110]}', file=sys.stderr)
+            print(f'C03_TIMING cpu={time.process_time() - t0:7.2f}s job={str(job)[:110]} budget_permille_max={_Steps.max_permille} at={_Steps.max_at}', file=sys.stderr)
             return i, res
         return i, worker(job)
     except BaseException as e:  # noqa: BLE001
